@@ -606,6 +606,40 @@ func genConsts() string {
 			fmt.Fprintf(&sb, "def websockets_shimBodySharedBuffers : List String := [%s]  -- %s ShimBody: buffers allocated once per ShimBody call and used inside the per-response hook\n", strings.Join(shared, ", "), srel)
 		}
 	}
+	// the VM identity refresh (every 10 s on GCE) must not fetch the new token from the metadata server while it holds
+	// the lock that every request to the proxy - including the upload of a streamed response - takes to read the token
+	{
+		rel := "agent/utils/utils.go"
+		fn := mustFunc(parseFile(rel), rel, "", "RoundTripperWithVMIdentity")
+		blocking := false
+		ast.Inspect(fn, func(n ast.Node) bool {
+			bl, ok := n.(*ast.BlockStmt)
+			if !ok {
+				if cc, ok2 := n.(*ast.CommClause); ok2 {
+					bl = &ast.BlockStmt{List: cc.Body}
+				} else {
+					return true
+				}
+			}
+			held := false
+			for _, st := range bl.List {
+				txt := src(st)
+				if strings.HasSuffix(txt, ".Lock()") {
+					held = true
+					continue
+				}
+				if strings.HasSuffix(txt, ".Unlock()") {
+					held = false
+					continue
+				}
+				if held && strings.Contains(txt, "getVMID(") {
+					blocking = true
+				}
+			}
+			return true
+		})
+		fmt.Fprintf(&sb, "def utils_identityRefreshFetchesUnderLock : Bool := %v  -- %s RoundTripperWithVMIdentity: getVMID is called between Lock() and Unlock() of the transport\n", blocking, rel)
+	}
 	// the size cap on a pending-list reply
 	{
 		rel := "agent/utils/utils.go"
